@@ -30,8 +30,17 @@ void shim_random_seed(uint64_t seed) { g_rand_ctr = 0; g_rand_key = (uint32_t)mi
 
 void shim_io_reset();
 
+static int g_fault_ctr[F_N];
+static void fault_counter(int kind)
+{
+	if (kind < 0 || kind >= F_N) return;
+	if (!g_fault_ctr[kind]) g_fault_ctr[kind] = counter_id("fault", shim_fault_names[kind]) + 1;
+	count(g_fault_ctr[kind] - 1);
+}
+
 void shim_reset()
 {
+	g_fault_counter = fault_counter;
 	memset(&g_cfg, 0, sizeof g_cfg);
 	memset(&g_hooks, 0, sizeof g_hooks);
 	g_cfg.clock_res_ns = 1;
@@ -320,6 +329,25 @@ extern "C" void *simk_realloc(void *p, size_t n)
 		return q;
 	}
 	return realloc(p, n);
+}
+
+extern "C" void *simk_memcpy(void *d, const void *s, size_t n)
+{
+	if (!in_task() || n == 0) return memcpy(d, s, n);
+	int rd = access_region_of(d), rs = access_region_of(s);
+	if (rd < 0 && rs < 0) return memcpy(d, s, n);
+	// copy in words, each access to the shared side being a preemption point
+	size_t stride = g_cfg.memcpy_stride_words > 0 ? (size_t)g_cfg.memcpy_stride_words * 4 : 4;
+	char *dp = (char *)d; const char *sp = (const char *)s;
+	size_t done = 0;
+	while (done < n) {
+		size_t k = n - done < stride ? n - done : stride;
+		if (rs >= 0) access_yield(sp + done, (int)k, 0, -1);
+		if (rd >= 0) access_yield(dp + done, (int)k, 1, -1);
+		memcpy(dp + done, sp + done, k);
+		done += k;
+	}
+	return d;
 }
 
 // ------------------------------------------------------------------ randomness
